@@ -190,8 +190,34 @@ def run_arena_and_os(prop, tier, seed, workdir):
 
 
 ENGINES = {"C13": handlers.run, "C14": tok.run, "C09": printf.run_c09, "C11": printf.run_c11, "C12": threads.run, "C20": alloc.run, "C16": sort.run, "C17": norm.run, "C15": mbs.run, "C19": ts.run, "C18": erase.run}
-for _p in ("C07", "C10"):
-    ENGINES[_p] = run_arena
+def run_c07(prop, tier, seed, workdir):
+    """C07: the algorithm layer (Bumper.tla: the two bumper loops step by step, refinement of the contract layer for every
+    placement) is model-checked first; then the contract layer is bound to the code as for the other arena properties."""
+    n, k = (7, 3) if tier == "quick" else (9, 4)
+    st = tr = 0
+    for alg, order, must_hold in (("strcpy_s", "code", True), ("strncpy_s", "code", True), ("strncpy_s", "swapped", False)):
+        cfg = os.path.join(workdir, "bumper_%s_%s.cfg" % (alg, order))
+        tlc.write_cfg(cfg, constants=dict(N=n, K=k, Alg=alg, Order=order), invariants=["Refines", "AccessOK"])
+        r = tlc.model_check("Bumper", cfg, workdir, workers=16)
+        if must_hold and (r["violated"] or not r["ok"]):
+            raise tlc.TLCError("Bumper.tla (%s): the specified algorithm does not refine the contract: %s\n%s" % (alg, r["violated"], r["out"][-1500:]))
+        if not must_hold and not r["violated"]:
+            raise tlc.TLCError("self-test: Bumper.tla does not reject the swapped test order")
+        if must_hold:
+            st += r["distinct"]
+            tr += r["states"]
+    res = run_arena(prop, tier, seed, workdir)
+    res.coverage["states"] += st
+    res.coverage["transitions"] += tr
+    res.coverage["algorithm_layer_states"] = st
+    res.coverage["rule"] += ("; algorithm layer: Bumper.tla runs the two overlap-bumper loops of strcpy_s / strncpy_s step by step on every placement (arena %d, sizes <= %d) "
+                             "and TLC checks that the result refines the contract (Refines) and touches only what is declared (AccessOK); the variant with the count tested "
+                             "before the bumper in the dest < src loop is shown to violate Refines" % (n, k))
+    return res
+
+
+ENGINES["C07"] = run_c07
+ENGINES["C10"] = run_arena
 for _p in ("C02", "C06"):
     ENGINES[_p] = run_arena_and_os
 for _p in ("C01", "C03", "C04", "C05", "C08"):
